@@ -995,13 +995,13 @@ func (c *caseRun) nextOp(r *hx.Rng) string {
 		return fmt.Sprintf("head n=%d", uint64(t)+c.cfg.follow)
 	}
 	switch x := r.Intn(100); {
-	case x < 52:
+	case x < 60:
 		return head()
-	case x < 62:
+	case x < 68:
 		return "suberr"
-	case x < 74:
+	case x < 78:
 		return "drop"
-	case x < 90:
+	case x < 93:
 		k := r.Pick(0, 0, 0, 1, 1, 2, 3, 5)
 		if r.Chance(35) {
 			return fmt.Sprintf("fetcherr k=%d mode=drop", k)
